@@ -1,6 +1,7 @@
 package main
 
 import (
+	"time"
 	"fmt"
 	"go/types"
 	"os"
@@ -51,6 +52,7 @@ type World struct {
 	topFrame       *Frame
 	unrollN        int // > 0: bounded stand-in, loops are unrolled (see unrollLoop)
 	unrollCuts     int
+	deadline       time.Time // generation budget of the bounded stand-in
 	skipClause     map[*Clause]bool // helper invariants set aside because they no longer fit the code
 	forgetMark     int              // script position before which assertions are dropped from later queries (opt forget-before-loop)
 	curLoopKeys    map[string]bool  // heap keys the loop whose head is being processed may write
